@@ -12,15 +12,19 @@
 //        |  ( 3 ((kind data)..) (index..) )     overlapping connections: every client first connects (TCP only) in list
 //              order; then the clients act in the given order - kind 1: TLS handshake, request `data`, wait for the answer;
 //              kind 0: send `data` in clear text, then reset
+//        |  ( 5 config request )                a well-formed TLS client that does not meet the configuration (4: client certificate
+//              demanded, 5: TLS 1.3 only and the client speaks 1.2) tries the handshake and, if it gets through, sends the request
 //        |  ( 4 clients completeAfterwards )   the server is destroyed while the handshakes of the connected clients are pending
 //   obs  ::= ( 0 handlerCalls middlewareCalls clientSawHttp liveAfter )
 //        |  ( 1 encrypted (calls log status body) (calls log status body) )       TLS first, plain second
 //        |  ( 2 encrypted (calls log) (calls log) )
 //        |  ( 3 tlsClients encryptedClients liveAfter clearSawHttp handlerCalls answered )
 //        |  ( 4 clientsStillConnected clientsEncrypted handlerCalls )
+//        |  ( 5 handlerCalls clientSawHttp liveAfter )
 #include <QCoreApplication>
 #include <memory>
 #include <vector>
+#include <QCryptographicHash>
 #include <QElapsedTimer>
 #include <QFile>
 #include <QSslCertificate>
@@ -71,10 +75,12 @@ protected:
         log->entries.add(Val::List({Val::Int(int(socket->method())), Val::Str(path), Val::Bytes(socket->rawPath()),
                                     headersVal(socket->headers()), Val::Int(socket->contentLength())}));
         Log *l = log;
-        auto finish = [socket, l]() {
+        bool big = path.startsWith("big");          // a response of several MiB, closed at once: most of it is still pending at close()
+        auto finish = [socket, l, big]() {
             l->entries.add(Val::List({Val::Bytes(socket->readAll())}));
-            socket->setHeader("Content-Length", "2");
-            socket->write("ok");
+            QByteArray body = big ? QByteArray(6 * 1024 * 1024, 'x') : QByteArray("ok");
+            socket->setHeader("Content-Length", QByteArray::number(body.size()));
+            socket->write(body);
             socket->close();
         };
         if (socket->bytesAvailable() >= socket->contentLength()) finish();
@@ -94,6 +100,8 @@ QSslConfiguration tlsConfig(int kind = 0)
     QList<QSslCertificate> certs = QSslCertificate::fromPath(QString(HX_SRC_DIR) + "/cert.pem");
     if (key.isNull() || certs.isEmpty()) throw std::runtime_error("nocert");
     QSslConfiguration config;
+    if (kind == 4) { config.setPrivateKey(key); config.setPeerVerifyMode(QSslSocket::VerifyPeer); config.setCaCertificates(certs); }     // clients must present a certificate
+    if (kind == 5) { config.setPrivateKey(key); config.setProtocol(QSsl::TlsV1_3OrLater); }                                            // TLS 1.3 only
     if (kind == 0) config.setPrivateKey(key);
     else if (kind == 2) { keyFile.seek(0); config.setPrivateKey(QSslKey(&keyFile, QSsl::Ec)); }      // an RSA key read as EC: null
     config.setLocalCertificateChain(certs);
@@ -162,7 +170,7 @@ Exchange exchange(bool tls, const QByteArray &request, int split, int pauseMs = 
         int k = qBound(0, split, request.size());
         client.write(request.left(k)); client.flush(); pumpMs(pauseMs);      // a long pause: the connection simply lives that long
         client.write(request.mid(k)); client.flush();
-        pumpTill([&]() { return client.state() == QAbstractSocket::UnconnectedState; }, 3000);
+        pumpTill([&]() { return client.state() == QAbstractSocket::UnconnectedState; }, 8000);
     }
     client.abort();
     pumpMs(20);
@@ -316,9 +324,35 @@ Val destroyedMidHandshake(const Val &c)
 }
 }
 
+namespace {
+// a well-formed TLS client that does not meet what the configuration demands (no client certificate / an older protocol)
+Val unwelcomeClient(const Val &c)
+{
+    int cfg = int(c.at(1).asInt());
+    Log log;
+    QObject scope;
+    LogHandler handler(&log, &scope);
+    Server server(&handler);
+    server.setSslConfiguration(tlsConfig(cfg));
+    if (!server.listen(QHostAddress::LocalHost, 0)) throw std::runtime_error("nolisten");
+    QSslSocket client;
+    client.setPeerVerifyMode(QSslSocket::VerifyNone);
+    if (cfg == 5) client.setProtocol(QSsl::TlsV1_2);
+    QByteArray got;
+    QObject::connect(&client, &QSslSocket::readyRead, [&]() { got += client.readAll(); });
+    client.connectToHostEncrypted("127.0.0.1", server.serverPort());
+    bool enc = pumpTill([&]() { return client.isEncrypted() || client.state() == QAbstractSocket::UnconnectedState; }, 3000) && client.isEncrypted();
+    if (enc) { client.write(c.at(2).asBytes()); client.flush(); pumpTill([&]() { return client.state() == QAbstractSocket::UnconnectedState; }, 400); }
+    client.abort();
+    pumpMs(40);
+    return Val::List({Val::Int(5), Val::Int(log.handler), Val::Bool(got.contains("HTTP/")), Val::Int(liveSockets(&server))});
+}
+}
+
 static Val run_tls(const Val &c)
 {
     int mode = int(c.at(0).asInt());
+    if (mode == 5) return unwelcomeClient(c);
     if (mode == 3) return overlapping(c);
     if (mode == 4) return destroyedMidHandshake(c);
     if (mode == 2) {
@@ -334,7 +368,11 @@ static Val run_tls(const Val &c)
         int pause = c.size() > 3 ? int(c.at(3).asInt()) : 15;
         Exchange a = exchange(true, request, split, pause);
         Exchange b = exchange(false, request, split, pause);
-        auto pack = [](const Exchange &e) { return Val::List({Val::Int(e.calls), e.log, Val::Int(e.status), Val::Bytes(e.body)}); };
+        auto pack = [](const Exchange &e) {
+            // long bodies are reported by length and checksum
+            QByteArray body = e.body.size() <= 4096 ? e.body : "len=" + QByteArray::number(e.body.size()) + ";md5=" + QCryptographicHash::hash(e.body, QCryptographicHash::Md5).toHex();
+            return Val::List({Val::Int(e.calls), e.log, Val::Int(e.status), Val::Bytes(body)});
+        };
         return Val::List({Val::Int(1), Val::Bool(a.encrypted), pack(a), pack(b)});
     }
     const Val &p = c.at(1);
